@@ -41,6 +41,7 @@ for _p in ("C06", "C08", "C14", "C16"):
     TECH[_p] = _B
 for _p in ("C09", "C10"):
     TECH[_p] = _B + "; plus a TLAPS proof that a scan of the slot sequence yields every entry exactly once with exact remaining lengths, for any size (spec/MapProofAlg.tla: FullScan, FullScanLen)"
+TECH["C15"] = "TLA+ specification model-checked with TLC; TLC-generated transitions replayed into the real crate (conformance, direction A); plus a TLAPS proof of the clone loop for any size (spec/MapProofClone.tla)"
 TECH["C16"] = _B + "; plus a TLAPS proof, for any number of items, that the loop of inserts keeps the last value and the first key object per key and that repeats consume no capacity (spec/MapProofBulk.tla)"
 TECH["C14"] = _B + "; plus a TLAPS proof, for operands of any size and slot order, that == as written in eq.rs holds exactly when both hold the same pairs (spec/MapProofEq.tla)"
 TECH["C08"] = _B + "; plus a TLAPS proof, for operands of any size, that the filtered-slot-iterator loop behind difference / intersection / union / symmetric_difference yields exactly the mathematical result without repeats and that the predicates tell the truth (spec/MapProofAlg.tla, spec/MapProofEq.tla)"
@@ -76,7 +77,7 @@ def main():
         "engines": [
             {"name": "pairgraph", "path": "spec/PairSpec.tla + harness/src/pair.rs", "serves_properties": ["C06", "C08", "C14"],
              "kind_free_text": "TLC state graph of two containers with the read-only binary operations, replayed into the real crate"},
-            {"name": "symbolic", "path": "spec/MapRef.tla, spec/MapInd.tla, spec/MapDisj.tla (Apalache); spec/MapProof.tla, spec/MapProofKV.tla, spec/MapProofRetain.tla, spec/MapProofId.tla, spec/MapProofAlg.tla, spec/MapProofEq.tla, spec/MapProofDisj.tla, spec/MapProofBulk.tla, spec/MapProofAdv.tla, spec/MapProofPanic.tla (TLAPS)", "serves_properties": ["C01", "C03", "C04", "C05", "C07", "C08", "C09", "C10", "C12", "C13", "C14", "C16", "C17", "C18"],
+            {"name": "symbolic", "path": "spec/MapRef.tla, spec/MapInd.tla, spec/MapDisj.tla (Apalache); spec/MapProof.tla, spec/MapProofKV.tla, spec/MapProofRetain.tla, spec/MapProofId.tla, spec/MapProofAlg.tla, spec/MapProofEq.tla, spec/MapProofDisj.tla, spec/MapProofBulk.tla, spec/MapProofAdv.tla, spec/MapProofPanic.tla, spec/MapProofClone.tla (TLAPS)", "serves_properties": ["C01", "C03", "C04", "C05", "C07", "C08", "C09", "C10", "C12", "C13", "C14", "C15", "C16", "C17", "C18"],
              "kind_free_text": "design-level strengthenings beyond TLC's capacities: one-step refinement of the dictionary from any well-formed state (capacities <= 24), inductive representation invariant (<= 32) and, by TLAPS for unbounded capacity, the invariant together with the refinement of the ideal key set / key-value map by every slot-level step, the disjoint-borrow stack algorithm for arbitrary states; run inside the named checks"},
             {"name": "micro", "path": "spec/MapMicro.tla + harness/src/micro.rs + harness/src/sweep.rs", "serves_properties": ["C04", "C08", "C14", "C17"],
              "kind_free_text": "callback-granular TLA+ model of slot memory (panic at every callback / every outcome of every key comparison), every behaviour replayed into the real crate"},
